@@ -90,7 +90,7 @@ fn c19_parser_total_truncations_enum() {
 
 // @harness c19_fieldtype_total_enum
 // @props C19
-// @tier quick
+// @tier off
 // @kind core
 // @timeout 2400
 // @mem 24
@@ -106,7 +106,7 @@ fn c19_parser_total_truncations_enum() {
 
 // @harness c19_fieldtype_total_set
 // @props C19
-// @tier quick
+// @tier off
 // @kind core
 // @timeout 2400
 // @mem 24
